@@ -82,6 +82,18 @@ fn axis_of(a: &Ax) -> Option<Axis> {
     }
 }
 
+/// An axis is documented as a vector of length 1
+fn axis_is_unit(a: &Ax) -> Result<(), String> {
+    if let Some(ax) = axis_of(a) {
+        let v = ax.vec();
+        let n = ((v.x as f64).powi(2) + (v.y as f64).powi(2) + (v.z as f64).powi(2)).sqrt();
+        if (n - 1.0).abs() > 1e-6 {
+            return Err(format!("Axis built from {a:?} has length {n}"));
+        }
+    }
+    Ok(())
+}
+
 /// The unit vector an axis spec *names* (independent of the library)
 fn axis_vec(a: &Ax) -> Option<[f64; 3]> {
     match a {
@@ -405,6 +417,15 @@ fn check_node(w: &mut World, s: &S, p: [f64; 3], cx: &mut Cx, depth: usize) -> C
         cx.ev.count("skipped_axis_rejected_by_constructor");
         return Ok(());
     };
+    match s {
+        S::Rotate(_, a, _, _) | S::Plane(Pl::P(a, _)) | S::Reflect(_, Pl::P(a, _)) => {
+            if let Err(e) = axis_is_unit(a) {
+                fail!("axis-not-unit", "{e}");
+            }
+            cx.ev.count("axes_checked_unit_length");
+        }
+        _ => {}
+    }
     let pm = p.iter().map(|v| v.abs()).fold(0.0, f64::max);
     let name = s.name();
     cx.ev.count(&format!("checked_{name}"));
@@ -704,6 +725,19 @@ fn ax() -> BoxedStrategy<Ax> {
         1 => Just(Ax::Y),
         1 => Just(Ax::Z),
         3 => [coord(), coord(), coord()].prop_map(Ax::V),
+        // vectors whose length is within a few parts in 10^4 of 1 (hand-typed
+        // unit vectors such as (0.6, 0.8, 0.03)): the library must still
+        // normalise them
+        1 => ([coord(), coord(), coord()], -12i32..=12).prop_map(|(v, k)| {
+            let (x, y, z) = (v[0].0, v[1].0, v[2].0);
+            let n = (x * x + y * y + z * z).sqrt();
+            if n < 1e-3 {
+                Ax::V([Fl(1.0 + k as f32 * 1e-4), Fl(0.0), Fl(0.0)])
+            } else {
+                let s = (1.0 + k as f32 * 1e-4) / n;
+                Ax::V([Fl(x * s), Fl(y * s), Fl(z * s)])
+            }
+        }),
     ]
     .boxed()
 }
